@@ -67,9 +67,17 @@ pub fn exec_guarded(p: &PropDef, input: &[String]) -> String {
 pub fn run_in_child(id: &str, tokens: &[String], envs: &[(&str, String)]) -> String {
     let exe = std::env::current_exe().expect("current_exe");
     let mut cmd = Command::new(exe);
-    cmd.arg("child").arg(id).args(tokens).stdin(Stdio::null()).stderr(Stdio::null());
+    let big = tokens.iter().map(|t| t.len() + 1).sum::<usize>() > 60_000;   // argument lists are limited (128 KiB per argument)
+    if big { cmd.arg("child").arg(id).arg("-").stdin(Stdio::piped()).stdout(Stdio::piped()).stderr(Stdio::null()); }
+    else { cmd.arg("child").arg(id).args(tokens).stdin(Stdio::null()).stderr(Stdio::null()); }
     for (k, v) in envs { cmd.env(k, v); }
-    match cmd.output() {
+    let res = if big {
+        cmd.spawn().and_then(|mut ch| {
+            if let Some(mut si) = ch.stdin.take() { let _ = si.write_all(tokens.join(" ").as_bytes()); }
+            ch.wait_with_output()
+        })
+    } else { cmd.output() };
+    match res {
         Ok(o) => {
             if o.status.success() { String::from_utf8_lossy(&o.stdout).trim().to_string() } else { "abort".to_string() }
         }
